@@ -311,6 +311,11 @@ func (t *tlopen) handle(cs *connState) message {
 	}
 	defer ref.DecRef()
 
+	// Two Tlopen requests in flight on the same fid must not both find it
+	// unopened: File.Open is guaranteed to be called only once.
+	ref.openMu.Lock()
+	defer ref.openMu.Unlock()
+
 	var (
 		qid    QID
 		ioUnit uint32
@@ -333,14 +338,17 @@ func (t *tlopen) handle(cs *connState) message {
 
 		// Do the open.
 		qid, ioUnit, err = ref.file.Open(t.Flags)
-		return err
+		if err != nil {
+			return err
+		}
+
+		// Mark file as opened and set open mode.
+		ref.opened = true
+		ref.openFlags = t.Flags
+		return nil
 	}); err != nil {
 		return newErr(err)
 	}
-
-	// Mark file as opened and set open mode.
-	ref.opened = true
-	ref.openFlags = t.Flags
 
 	return &rlopen{QID: qid, IoUnit: ioUnit}
 }
